@@ -35,6 +35,17 @@ NextSess == /\ prog' = GenProg(prog)
             /\ entry' = RandomElement(Entries)
 SpecSess == InitSess /\ [][NextSess]_svars
 
+\* pinned witness of the known finding F-C11-1 (shadowing in a nested block of a later chunk)
+SessWitness ==
+    WProg("shadowing-in-a-nested-block-of-a-later-chunk", <<>>,
+          << [k |-> "def", x |-> "x", e |-> Lit(4)],
+             For2(<< [k |-> "def", x |-> "x", e |-> Lit(1)] >>),
+             [k |-> "asg", x |-> "g1", e |-> Var("x")],
+             [k |-> "printg"] >>)
+InitSessWit == /\ prog = SessWitness /\ res = Run(SessWitness) /\ sess = SessionRun(SessWitness)
+               /\ cut = 1..(NItems(SessWitness) - 1) /\ entry = "eval"
+SpecSessWit == InitSessWit /\ [][UNCHANGED svars]_svars
+
 \* all cuts of one program (exhaustive tier over a fixed corpus is driven by the harness:
 \* it asks for every subset when the program is small)
 
